@@ -18,7 +18,7 @@ from mc.spec import gen, harness, model
 
 ID = "C17"
 JUNK = [("null", None), ("true", True), ("0", 0), ("1.5", 1.5), ("string", "s"), ("empty-string", ""), ("[]", []), ("[1]", [1]), ("{}", {}), ("{a:1}", {"a": 1}), ("[[]]", [[]]),
-        ("[{}]", [{}]), ("{a:{}}", {"a": {}}), ("[null]", [None])]
+        ("[{}]", [{}]), ("{a:{}}", {"a": {}}), ("[null]", [None]), ("huge-int", 10 ** 400), ("huge-negative-int", -(10 ** 400)), ("1e400-as-int-text", 10 ** 22 + 1)]
 DEEP = ["deep-list", "deep-dict"]
 
 
@@ -154,7 +154,17 @@ def run_slots(case, part):
         slots = [s for s in slots if len(s[0]) == 1]
     only = case.get("slot")
     junk_labels = [l for l, _ in JUNK] + DEEP
+    PATTERNS = {"pattern-deep-parentheses": "[" + "(" * 3000 + "a:b = 1" + ")" * 3000 + "]", "pattern-long-chain": "[a:b = 1" + " AND a:b = 1" * 5000 + "]",
+                "pattern-deep-observation-parentheses": "(" * 3000 + "[a:b = 1]" + ")" * 3000}
     for path, v, p, ckey, pname in slots:
+        if pname == "pattern" and len(path) == 1:
+            for pl, pv in PATTERNS.items():
+                if case.get("junk") and pl != case["junk"]:
+                    continue
+                j = gen.set_path(wrapped, path, pv)
+                for allow in (False, True):
+                    for name, fn in entries(j, version, allow, is_sco):
+                        call(part, name, fn, dict(case, slot=list(path), junk=pl, allow_custom=allow), "pattern<-" + pl)
         if only is not None and list(path) != only:
             continue
         for jl in junk_labels:
@@ -375,6 +385,51 @@ def run_extension_types(case, part):
         env.registry_restore(snap)
 
 
+# ---- (iv-c) constructor arguments that are not properties, and marking-definition shapes -------------------------------------------------------
+def run_arguments(case, part):
+    import stix2
+    env.reset()
+    TS = "2016-05-12T08:17:27.000Z"
+    part.state(("arguments", case["version"]), nontrivial=True)
+    mod = stix2.v20 if case["version"] == "2.0" else stix2.v21
+    classes = [("Identity", dict(name="n", identity_class="individual")), ("Bundle", {}), ("ExternalReference", dict(source_name="s", url="u"))] + \
+        ([("File", dict(name="f")), ("NTFSExt", dict(sid="s"))] if case["version"] == "2.1" else [("File", dict(name="f"))])
+    for cname, kw in classes:
+        cls = getattr(mod, cname)
+        for jl, jv in JUNK:
+            for arg in ("custom_properties", "allow_custom", "interoperability"):
+                if case.get("arg") and (cname, arg, jl) != (case["class"], case["arg"], case["junk"]):
+                    continue
+                c = {"kind": "arguments", "version": case["version"], "class": cname, "arg": arg, "junk": jl}
+                call(part, "constructor", lambda: cls(**dict(kw, **{arg: copy.deepcopy(jv)})), c, "constructor-argument/%s<-%s" % (arg, kind_of(jv)))
+                if arg == "custom_properties":
+                    for allow in (False, True):
+                        call(part, "parse(dict)", lambda: stix2.parse(dict({"type": "identity", "id": "identity--3f7f0c5f-5d54-4292-94ea-ec1e1952be11", "created": TS, "modified": TS, "name": "n",
+                                                                            "identity_class": "individual", "custom_properties": copy.deepcopy(jv)},
+                                                                           **({"spec_version": "2.1"} if case["version"] == "2.1" else {})), allow_custom=allow),
+                             dict(c, allow_custom=allow), "custom_properties-member<-%s" % kind_of(jv))
+    # marking-definition: every combination of definition_type x definition x extensions
+    EXT = {"extension-definition--3f7f0c5f-5d54-4292-94ea-ec1e1952be1f": {"extension_type": "property-extension", "a": 1}}
+    for dt_ in ("tlp", "statement", "x-unknown", None, 0):
+        for defn in ("$absent", {"tlp": "red"}, {"statement": "s"}, {}, None, "s", [1], {"tlp": "blue"}, {"tlp": None}):
+            for ext in ("$absent", EXT, {}):
+                if case["version"] == "2.0" and ext != "$absent":
+                    continue
+                j = {"type": "marking-definition", "id": "marking-definition--3f7f0c5f-5d54-4292-94ea-ec1e1952be12", "created": TS}
+                if case["version"] == "2.1":
+                    j["spec_version"] = "2.1"
+                if dt_ is not None:
+                    j["definition_type"] = dt_
+                if defn != "$absent":
+                    j["definition"] = copy.deepcopy(defn)
+                if ext != "$absent":
+                    j["extensions"] = copy.deepcopy(ext)
+                for allow in (False, True):
+                    c = {"kind": "arguments", "version": case["version"], "marking": {k: v for k, v in j.items() if k in ("definition_type", "definition", "extensions")}, "allow_custom": allow}
+                    for ename, fn in entries(j, case["version"], allow, False):
+                        call(part, ename, fn, c, "marking-definition-shape/%s/%s/%s" % (dt_, "absent" if defn == "$absent" else kind_of(defn), "with-extensions" if ext != "$absent" else "no-extensions"))
+
+
 # ---- (v) a failure must leave NOTHING behind: refused parse of a type, then its registration, then the same parse -------------------------------
 def run_fail_then_register(case, part):
     import stix2
@@ -456,6 +511,8 @@ def run_case(case, part):
         return run_fail_then_register(case, part)
     if case.get("kind") == "extension-types":
         return run_extension_types(case, part)
+    if case.get("kind") == "arguments":
+        return run_arguments(case, part)
     if case.get("kind") in ("values",):
         run_values(case, part)
     elif case.get("kind") in ("value", "text"):
@@ -465,7 +522,9 @@ def run_case(case, part):
 
 
 def replay(case, part):
-    c = {k: v for k, v in case.items() if k not in ("entry", "allow_custom", "stage", "extra")}
+    c = {k: v for k, v in case.items() if k not in ("entry", "allow_custom", "stage", "extra", "marking")}
+    if c.get("kind") == "arguments":
+        c = {"kind": "arguments", "version": c["version"]}
     if isinstance(c.get("junk"), list):
         c = {k: v for k, v in c.items() if k not in ("slot", "junk")}
         c["pairs"] = True
@@ -492,6 +551,7 @@ def run(run):
         cases.append({"kind": "depths", "base": b})
     for b in ("unregistered-type", "identity", "file"):
         cases.append({"kind": "extension-types", "base": b})
+    cases += [{"kind": "arguments", "version": "2.0"}, {"kind": "arguments", "version": "2.1"}]
     for ver in ("2.0", "2.1"):
         for kind in ("object", "observable"):
             for first in ("all", "parse(dict)", "parse(text)", "parse(container)", "parse_observable", "MemoryStore.add"):
